@@ -8,8 +8,15 @@
   (before: accepted / falsely rejected; now: decided like the specification) and structural facts.
   The correspondence stream compares the real analysis with `Mid` node by node and with the
   specification on generated and enumerated grammars.
+
+  The CONSEQUENCE clause ("a parser generated without the flag ... cannot recurse without bound") is proved for the
+  runtime model at the end of this file: `C07_no_same_position_cycle_terminates` — a grammar whose first graph has no
+  cycle (witnessed by a ranking), with repetitions over non-nullable bodies and no throw/recover, terminates on
+  every input, from every state, for every code environment, without any budget (`Proofs/Advance.lean`,
+  `Proofs/WFTerm.lean`). `C07_nullable_sound` is the semantic soundness of the nullable analysis it rests on.
 -/
 import PigeonVerif.Properties.C19
+import PigeonVerif.Proofs.WFTerm
 
 namespace PV
 namespace Mid
@@ -98,4 +105,83 @@ theorem C07_direct_detected (cfg : Cfg) (e f : AExpr) (n1 n2 n3 : Bool) :
   · simp [initialNames]
 
 end Mid
+end PV
+
+namespace PV
+namespace RT
+
+/-- **C07 (nullable is sound).** Plain configuration, ANY grammar (throw/recover included), any code environment, input,
+    state and depth: a successful evaluation never ends before the position it started at, and if it ends AT that
+    position then the expression is nullable in the sense of the static analysis (`Expr.nul`, relative to any
+    closed oracle for the rules). Non-nullable expressions consume input. -/
+theorem C07_nullable_sound (E : Env) (hp : Plain E) (rn : String → Bool)
+    (hrn : ∀ n r, E.findRule n = some r → r.expr.nul rn = true → rn n = true)
+    (f : Nat) (e : Expr) (s s' : PState) (v : Val) (hi : FInv E s) (h : parseExpr E f e s = .done v true s') :
+    s.pt.pos.off ≤ s'.pt.pos.off ∧ (s'.pt.pos.off = s.pt.pos.off → e.nul rn = true) := by
+  have := adv hp hrn f e s hi
+  rw [h] at this
+  exact this rfl
+
+/-- **C07 (consequence).** A grammar in which no rule can reach itself at the same input position — there is a ranking
+    of the rules that strictly decreases along every edge "rule → rule its body can invoke before consuming anything"
+    (`Expr.first`) — whose repetitions have non-nullable bodies and which does not use throw/recover, terminates:
+    for every code environment and every input `Parse` returns at some finite depth, with no budget. The parser cannot
+    recurse without bound (nor loop). -/
+theorem C07_no_same_position_cycle_terminates (E : Env) (rn : String → Bool) (rank : String → Nat)
+    (h : WFG E rn rank) : ∃ f, parse E f ≠ .oof := wf_parse_terminates h
+
+/-- the same for every expression of such a grammar, from every state the parser can be in -/
+theorem C07_every_expression_terminates (E : Env) (rn : String → Bool) (rank : String → Nat) (h : WFG E rn rank)
+    (e : Expr) (s : PState) (hi : FInv E s) (hwf : e.wfs rn = true) : ∃ f, parseExpr E f e s ≠ .oof :=
+  wf_terminates h e s hi hwf
+
+/-- the hypothesis is decidable given a candidate witness: `checkWFG` is executable (the correspondence stream runs it
+    on the generated grammars) and its `true` is sound -/
+theorem C07_checked_grammars_terminate (E : Env) (nl : List String) (rk : List (String × Nat))
+    (hc : checkWFG E nl rk = true) : ∃ f, parse E f ≠ .oof :=
+  wf_parse_terminates (checkWFG_sound hc)
+
+/-- a rule that can reach ITSELF at the same position has no ranking: the hypothesis excludes exactly the grammars C07
+    wants rejected -/
+theorem C07_left_recursive_rule_has_no_ranking (E : Env) (rn : String → Bool) (rank : String → Nat) (n : String) (r : Rule)
+    (hf : E.findRule n = some r) (hself : n ∈ r.expr.first rn) : ¬ WFG E rn rank := fun h =>
+  Nat.lt_irrefl _ (h.ranked n r hf n hself)
+
+namespace ExampleC07
+
+def lit (id : Nat) (s : String) : Expr := .lit id (s.toList.map (·.toNat)) false ("\"" ++ s ++ "\"")
+
+/-- `R <- W S "!" / S "?"` ; `S <- "a" S / "b"` ; `W <- " "*`  — `W` is nullable, so `R` reaches `S` at its own start -/
+def rules : List Rule :=
+  [ { name := "R", displayName := "", leader := false, leftRecursive := false,
+      expr := .choice 1 1 6 [.seq 2 [.ruleRef 3 "W", .ruleRef 4 "S", lit 5 "!"], .seq 6 [.ruleRef 7 "S", lit 8 "?"]] },
+    { name := "S", displayName := "", leader := false, leftRecursive := false,
+      expr := .choice 9 2 6 [.seq 10 [lit 11 "a", .ruleRef 12 "S"], lit 13 "b"] },
+    { name := "W", displayName := "", leader := false, leftRecursive := false,
+      expr := .zeroOrMore 14 (lit 15 " ") } ]
+
+def env (inp : String) : Env :=
+  { flags := { optimize := false, globalState := false, leftRec := false, basicLatin := false },
+    opts := {}, rules := rules,
+    code := { args := fun _ => [], run := fun _ ctx => { state := ctx.state, global := ctx.global } },
+    toLower := id, input := inp.toList.map (·.toNat) }
+
+/-- the witness: `W` is the only nullable rule; `R` ranks above `S` and `W` -/
+theorem wellformed (inp : String) : checkWFG (env inp) ["W"] [("R", 1)] = true := by
+  have : checkWFG (env inp) ["W"] [("R", 1)] = checkWFG (env "") ["W"] [("R", 1)] := rfl
+  rw [this]; decide
+
+example (inp : String) : ∃ f, parse (env inp) f ≠ .oof := C07_checked_grammars_terminate _ _ _ (wellformed inp)
+
+/-- `A <- A "x" / "y"`: left recursive, and indeed no witness passes the checker's ranking test -/
+def lrRule : Rule :=
+  { name := "A", displayName := "", leader := false, leftRecursive := false,
+    expr := .choice 1 1 6 [.seq 2 [.ruleRef 3 "A", lit 4 "x"], lit 5 "y"] }
+
+example (rn : String → Bool) (rank : String → Nat) (E : Env) (hf : E.findRule "A" = some lrRule) : ¬ WFG E rn rank :=
+  C07_left_recursive_rule_has_no_ranking E rn rank "A" lrRule hf (by simp [lrRule, Expr.first, firstAny, firstSeq])
+
+end ExampleC07
+
+end RT
 end PV
